@@ -22,7 +22,44 @@ def replay(verdict, exe, res, aspects, seed=0, tag="inc"):
                           extra_before=extra, sigprefix="include")
     if "tree" in aspects:
         scenarios(verdict, exe, res, extra, tag)
+        replay_relative(verdict, exe, res, aspects, seed=seed, tag=tag + "rel")
     return n
+
+
+def relativize(obj):
+    """the same behaviours with every include name made relative: the files live in a directory
+    that is only reachable through the context's search path"""
+    if isinstance(obj, dict):
+        return {k: relativize(v) for k, v in obj.items()}
+    if isinstance(obj, list):
+        return [relativize(v) for v in obj]
+    if isinstance(obj, str) and obj.startswith("$R/"):
+        return obj[3:]
+    return obj
+
+
+def replay_relative(verdict, exe, res, aspects, seed=0, tag="increl"):
+    import copy
+    fs = res.extra["FS"][0]
+    extra = ["fs dir $R/incdir"]
+    for name, ent in sorted(fs.items()):
+        rel = name[3:]
+        if ent["kind"] == "dir":
+            extra.append("fs dir %s" % enc("$R/incdir/" + rel))
+        else:
+            extra.append("fs file %s %s" % (enc("$R/incdir/" + rel), enc(render_tokens(relativize(ent["toks"])))))
+    extra.append("searchpath c1 $R/incdir")
+    r2 = copy.copy(res)
+    r2.behaviours = []
+    for b in res.behaviours:
+        nb = relativize(b)
+        for p in nb["parses"]:
+            d1 = p["exp"]["diag1"]
+            if d1["file"] not in ("buf", "<NULL>"):
+                d1["file"] = "$R/incdir/" + d1["file"]
+        r2.behaviours.append(nb)
+    return parsecheck.replay(verdict, exe, r2, aspects=set(aspects) | {"balance"}, seed=seed, renderings=("canonical",), tag=tag,
+                             extra_before=extra, sigprefix="include-searchpath")
 
 
 def scenarios(verdict, exe, res, extra, tag):
